@@ -443,9 +443,15 @@ def rule_score_source(ctx):
     ctx.floor("Match.score write sites", n, 7)
 
 
+def rule_borrow_witness(ctx):
+    import witness
+    witness.rule(ctx, ("C06", "C11ItemOutlivesMatcher"), "a reader could observe a snapshot (or an item borrowed from it) while a tick / restart mutates or drops it")
+
+
 def rules(ctx):
     ctx.run_rule("C06.unchecked-feed", rule_unchecked_feed)
     ctx.run_rule("C06.inflight-order", rule_inflight_order)
     ctx.run_rule("C06.placeholders", rule_placeholders)
     ctx.run_rule("C06.update-guard", rule_update_guard)
     ctx.run_rule("C06.score-source", rule_score_source)
+    ctx.run_rule("C06.borrow-witness", rule_borrow_witness)
